@@ -2,11 +2,14 @@
 pub mod util;
 pub mod mvalue;
 pub mod mop;
+pub mod mattr;
 #[cfg(kani)]
 mod gen;
 #[cfg(kani)]
 mod c09;
 #[cfg(kani)]
 pub mod c07;
+#[cfg(kani)]
+pub mod c03;
 #[cfg(kani)]
 mod setup;
